@@ -326,7 +326,7 @@ example : CInv demoState := new_server_cinv demoState rfl (by decide) 0 rfl (by 
 /-- … and of `new_server_dcSup`, by a server state with a directory cache -/
 def demoStateDc : St :=
   { demoState with dc := some { entries := [], cap := 4, ttl := 5, negTtl := 0, enableNeg := false, hitAtEq := true } }
-example : CInv demoStateDc ∧ DcSup demoStateDc :=
+theorem demoStateDc_ok : CInv demoStateDc ∧ DcSup demoStateDc :=
   ⟨new_server_cinv demoStateDc rfl (by decide) 0 rfl (by decide) (Fs.wf_empty 1000)
      (by intro c hc; simp only [demoStateDc, Option.some.injEq] at hc; rw [← hc]; exact ⟨rfl, by decide⟩),
    new_server_dcSup demoStateDc (by intro c hc; simp only [demoStateDc, Option.some.injEq] at hc; rw [← hc]; exact ⟨rfl, by decide⟩)⟩
